@@ -200,10 +200,11 @@ def control_flow_pairs(ctx):
             p = dict(p, pres=plain)
             add(p, dict(p, thenE=e, elseE=t))
     L = ["a+b", "b", "7"]
-    for l1, l2, l3, l4 in itertools.product(L, repeat=4):
-        p = {"tpl": "dectree", "c2": "b>0", "c3": "a>b", "l1": l1, "l2": l2, "l3": l3, "l4": l4, "pres": plain}
-        for q in (dict(p, l1=l2, l2=l1), dict(p, l2=l3, l3=l2), dict(p, c2=p["c3"], c3=p["c2"], l1=l3, l3=l1, l2=l4, l4=l2)):
-            if q != p and len(old) < 220:
+    for (l1, l2, l3, l4), form in itertools.product(itertools.product(L, repeat=4), ("ret", "glob")):
+        p = {"tpl": "dectree", "c2": "b>0", "c3": "a>b", "l1": l1, "l2": l2, "l3": l3, "l4": l4, "form": form, "pres": plain}
+        for q in (dict(p, l1=l2, l2=l1), dict(p, l2=l3, l3=l2), dict(p, c2=p["c3"], c3=p["c2"], l1=l3, l3=l1, l2=l4, l4=l2),
+                  dict(p, c2=p["c3"], c3=p["c2"], l1=l4, l4=l1, l2=l3, l3=l2)):     # subtrees moved AND their leaves exchanged
+            if q != p and len(old) < 420:
                 add(p, q)
     base = os.path.join(ctx.scratch, "cfpairs")
     po = c04.write_pkg(os.path.join(base, "o"), minigo.render_file("pk", old))
